@@ -369,7 +369,7 @@ void GC_Mark(struct GC* gc) {
   if (gc is NULL or gc->nitems is 0) { return; }
   
   /* Mark Thread Local Storage */
-  mark(current(Thread), gc, (void(*)(var,void*))GC_Mark_Item);
+  mark(current(Thread), gc, (void(*)(var,void*))GC_Mark_And_Recurse);
   
   /* Mark Roots */
   for (size_t i = 0; i < gc->nslots; i++) {
